@@ -272,12 +272,21 @@ AUTH_CMDS = [b'SELECT INBOX', b'EXAMINE INBOX', b'CREATE x', b'DELETE x',
              b'RENAME a b', b'SUBSCRIBE x', b'UNSUBSCRIBE x', b'LIST "" *',
              b'LSUB "" *', b'STATUS INBOX (MESSAGES RECENT UIDNEXT '
              b'UIDVALIDITY UNSEEN)', b'APPEND INBOX {3+}\r\nabc',
-             b'APPEND INBOX (\\Seen) "01-Jan-2024 10:00:00 +0000" {3+}\r\nabc']
+             b'APPEND INBOX (\\Seen) "01-Jan-2024 10:00:00 +0000" {3+}\r\nabc',
+             # both arguments / the argument and the state denote one object
+             b'RENAME x x', b'RENAME INBOX INBOX', b'RENAME INBOX inbox',
+             b'CREATE INBOX', b'DELETE INBOX', b'SUBSCRIBE INBOX',
+             b'CREATE x/x', b'RENAME x x/y', b'STATUS x (MESSAGES)']
 SELECT_CMDS = [b'CHECK', b'CLOSE', b'EXPUNGE', b'SEARCH ALL',
                b'FETCH 1 (FLAGS)', b'STORE 1 +FLAGS (\\Seen)', b'COPY 1 x',
                b'MOVE 1 x', b'UID FETCH 1:* (FLAGS)', b'UID SEARCH ALL',
                b'UID STORE 1 FLAGS ()', b'UID COPY 1 x', b'UID MOVE 1 x',
                b'UID EXPUNGE 1', b'IDLE',
+               # source and destination are the selected mailbox
+               b'COPY 1 INBOX', b'MOVE 1 INBOX', b'UID MOVE 1:* INBOX',
+               b'UID COPY 1:* inbox', b'MOVE 1:* inbox', b'SELECT INBOX',
+               b'EXAMINE INBOX', b'DELETE INBOX', b'RENAME INBOX x',
+               b'STATUS INBOX (MESSAGES UNSEEN)', b'APPEND INBOX {3+}\r\nabc',
                b'FETCH 1:* (UID FLAGS INTERNALDATE RFC822.SIZE ENVELOPE '
                b'BODYSTRUCTURE BODY BODY[] BODY[HEADER] BODY[TEXT] '
                b'BODY[1] BODY[1.MIME] BODY[HEADER.FIELDS (Subject)] '
@@ -293,7 +302,11 @@ HOSTILE_LEAVES = [
     b'&,,,,-', b'&2AA-', b'&2ADcAA-', b'\xff', b'"\xff"', b'\xc3\xa9',
     b'NIL', b'nil', b'""', b'"', b'"\\', b'"\\x"', b'\\', b'(', b')', b'((',
     b'))', b'()', b'[', b']', b'{', b'}', b'{}', b'{a}', b'{-1}',
-    b'{99999999999999999999}', b'{0}', b'~{0+}\r\n', b'{0+}\r\n',
+    b'{99999999999999999999}', b'{' + b'9' * 5000 + b'+}',
+    b'{' + b'1' * 4400 + b'}', b'~{' + b'9' * 4301 + b'+}', b'9' * 5000,
+    b'1:' + b'9' * 5000, b'BODY[]<' + b'9' * 5000 + b'.1>',
+    b'BODY[]<0.' + b'9' * 5000 + b'>', b'BODY[' + b'1' * 5000 + b']',
+    b'LARGER ' + b'9' * 5000, b'UID ' + b'9' * 5000, b'{0}', b'~{0+}\r\n', b'{0+}\r\n',
     b'{1+}\r\nx', b'{3+}\r\na\r\n', b'{4+}\r\n{3+}', b'{6+}\r\nab{2+}',
     b'{5+}\r\n{9+}\n', b'*', b'%', b'1:*', b'*:*', b'0', b'-1',
     b'4294967296', b'99999999999999999999999', b'1:', b':1', b'1,,2', b'1,',
@@ -325,10 +338,15 @@ HOSTILE_LEAVES = [
 
 
 def deep_nest(rng: random.Random) -> bytes:
-    n = rng.choice([10, 50, 200, 1000, 5000, 20000])
+    # fine-grained around the interpreter's recursion limit: a program may
+    # be shallow enough to parse and still too deep to evaluate
+    n = rng.choice([10, 50, 200, 300, 350, 400, 430, 460, 480, 490, 500, 510,
+                    520, 550, 600, 700, 800, 900, 1000, 5000, 20000])
     kind = rng.random()
-    if kind < 0.3:
+    if kind < 0.2:
         return b'(' * n + b'ALL' + b')' * n
+    if kind < 0.3:
+        return b'OR ALL ' * n + b'ALL'
     if kind < 0.5:
         return b'NOT ' * n + b'ALL'
     if kind < 0.7:
@@ -384,6 +402,9 @@ def hostile_line(rng: random.Random, state: str) -> bytes:
     well-formed {n+} literals."""
     if state != 'nonauth' and rng.random() < 0.25:
         return name_line(rng)
+    if state == 'selected' and rng.random() < 0.04:
+        return rng.choice([b'SEARCH ', b'UID SEARCH ', b'SEARCH CHARSET '
+                           b'UTF-8 ', b'SEARCH 1:* ']) + deep_nest(rng)
     pool = list(NONAUTH_CMDS)
     if state in ('auth', 'selected'):
         pool += AUTH_CMDS * 2
@@ -433,6 +454,9 @@ def hostile_line(rng: random.Random, state: str) -> bytes:
         if n > 2000:
             raw = raw * (n // 2000)
         return sanitize_literals(raw.replace(b'\n', b' '))
+    if r < 0.95:
+        # the valid command as it is (among them the self-referential ones)
+        return base
     # long but simple
     return base + b' ' + rng.choice([b'a', b'(', b'1,', b'"x" ']) * \
         rng.choice([100, 1000, 10000])
